@@ -207,7 +207,9 @@ def rule_hist(ctx):
 
 
 def rule_acc(ctx):
+    from .driverworld import build_drivers
     p = ctx.p
+    drv_cls = p.cls("indi.device.driver.Driver")
     dbase = p.cls("indi.routing.device.Device")
     subs = dbase.all_subclasses()
     ctx.floor("C04.ACC", "routing.Device subclasses", len(subs), 2)
@@ -223,7 +225,11 @@ def rule_acc(ctx):
         results = []
         for dev in (None, "A", "B", "a", "AA", ""):
             def run(it: Interp, dev=dev, f=f, ci=ci):
-                o = Obj(ci, {"_name": Const("A")}, label="dev")
+                if ci is drv_cls:
+                    # a driver named 'A' produced by the real constructor (a second one named 'B' exists beside it)
+                    o = build_drivers(it, p, names=(("DevA", "A"), ("DevB", "B")))["A"]
+                else:
+                    o = Obj(ci, {}, label="dev")
                 return it.run_function(Fn(f, o), [Const(dev)], {})
 
             paths = explore(p, run, {"inline": lambda fi, node: fi.kind == "getter" and fi.cls is not None and fi.cls in ci.mro})
@@ -251,9 +257,17 @@ def rule_name(ctx):
     g = drv.getters.get("name")
     if g is None:
         raise Undecided("Driver.name getter not found")
-    paths = run_method(p, g)
-    ok = all(pa.outcome == "return" and show(pa.value) == "self._name" for pa in paths)
-    ctx.check(ok, "C04.ACC", g.short, "name returns self._name", "Driver.name does not return the name set at construction", fi=g, text="name-getter")
+    from .driverworld import build_drivers
+    from .common import public_get
+
+    def run(it: Interp):
+        ds = build_drivers(it, p, names=(("DevA", "A"), ("DevB", "B")))
+        it.names = [public_get(it, ds[k], "name") for k in ("A", "B")]
+        return Const(None)
+
+    paths = explore(p, run, {"inline": lambda fi, node: False})
+    ok = bool(paths) and all(pa.outcome == "return" and [show(x) for x in pa.interp.names] == ["'A'", "'B'"] for pa in paths)
+    ctx.check(ok, "C04.ACC", g.short, "each constructed driver reports the name it was constructed with", "Driver.name does not return the name set at construction (two drivers 'A' and 'B' constructed)", fi=g, text="name-getter")
 
 
 RULES = [
